@@ -97,6 +97,15 @@ SCENARIOS['S5d'] = {
     'prefix': ['x0', 'x1'],
     'alphabet': ['dA', 'n0', 'dB', 't', 't', 't'],
 }
+# the validator decides only after the deadline (rejecting / accepting) and the caller looks at the result later still
+SCENARIOS['S3d'] = {
+    'interests': [{'name': '/a', 'cbp': False, 'lifetime': 10, 'vlat': 15, 'verdict': 'reject', 'await_delay': 30},
+                  {'name': '/b', 'cbp': False, 'lifetime': 12},       # (its timer lets the clock stop between the deadline and the verdict)
+                  {'name': '/a', 'cbp': True, 'lifetime': 10, 'vlat': 15, 'verdict': 'accept', 'await_delay': 30}],
+    'packets': {'dA': {'data': '/a'}, 'dB': {'data': '/b'}},
+    'prefix': ['x0', 'x1', 'x2'],
+    'alphabet': ['dA', 'dB', 't', 't', 't', 't'],
+}
 # S1 / S7 next to a second application object in the same process
 for _k in ('S1', 'S7'):
     SCENARIOS[_k + 't'] = dict(SCENARIOS[_k], twin=True, phase2=False)
@@ -113,8 +122,8 @@ SCENARIOS['S5z'] = {
 # S2 with the Data packets arriving inside link-layer envelopes
 SCENARIOS['S2w'] = dict(SCENARIOS['S2'], packets={k: (dict(v, lp=True) if 'data' in v else v) for k, v in SCENARIOS['S2']['packets'].items()})
 
-LEN = {'quick': {'S1': 5, 'S2': 5, 'S3': 5, 'S3b': 5, 'S4': 5, 'S5': 5, 'S7': 5, 'S1p': 4, 'S4p': 4, 'S7p': 4, 'S2w': 4, 'S1m': 4, 'S7m': 4, 'S5d': 4, 'S5z': 4, 'S2g': 3, 'S7g': 3, 'S1t': 3, 'S7t': 3},
-       'thorough': {'S1': 6, 'S2': 6, 'S3': 6, 'S3b': 6, 'S4': 6, 'S5': 6, 'S7': 6, 'S1p': 5, 'S4p': 5, 'S7p': 5, 'S2w': 5, 'S1m': 5, 'S7m': 5, 'S5d': 5, 'S5z': 5, 'S2g': 4, 'S7g': 4, 'S1t': 4, 'S7t': 4}}
+LEN = {'quick': {'S1': 5, 'S2': 5, 'S3': 5, 'S3b': 5, 'S4': 5, 'S5': 5, 'S7': 5, 'S1p': 4, 'S4p': 4, 'S7p': 4, 'S2w': 4, 'S1m': 4, 'S7m': 4, 'S5d': 4, 'S3d': 5, 'S5z': 4, 'S2g': 3, 'S7g': 3, 'S1t': 3, 'S7t': 3},
+       'thorough': {'S1': 6, 'S2': 6, 'S3': 6, 'S3b': 6, 'S4': 6, 'S5': 6, 'S7': 6, 'S1p': 5, 'S4p': 5, 'S7p': 5, 'S2w': 5, 'S1m': 5, 'S7m': 5, 'S5d': 5, 'S3d': 6, 'S5z': 5, 'S2g': 4, 'S7g': 4, 'S1t': 4, 'S7t': 4}}
 DEV = {'quick': 1, 'thorough': 2}
 
 
